@@ -8,6 +8,7 @@ import Mathlib.Tactic.Linarith
 import Mathlib.Tactic.Ring
 import Mathlib.Tactic.Positivity
 import PhotVerif.Gen.ForwardTable
+import PhotVerif.Gen.FinderTable
 
 namespace PhotVerif.C14
 open PhotVerif.Model PhotVerif.Model.Peaks
@@ -291,5 +292,33 @@ example : irafMinSep none 2 (5 / 2) = some 5 ∧ (irafMinSep (some 0) 2 (5 / 2))
 /-- TABLE OBLIGATION: see `Gen/ForwardTable.lean` - every delegating call in these modules passes on each value the caller holds
     under the callee's own parameter name (seed C14-r6 dropped `footprint` from the centroid refinement of `find_peaks`) -/
 theorem no_dropped_arguments : Gen.ForwardTable.droppedIn Gen.ForwardTable.scopeC14 = [] := by decide
+
+/-! ### "finite values": the finite-value filter covers every reported column (table regenerated from the three finder modules) -/
+
+section finite
+open Gen.FinderTable
+
+/-- TABLE OBLIGATION (see `Gen/FinderTable.lean`): a reported column is covered when the finite-value filter tests it; when it is `id` or a pixel count; or when a tested attribute is
+    that column divided by the (positive, finite) kernel FWHM.  `mag` is the one exception: known finding F40. -/
+def columnCovered (finder : String) (tested : List String) (c : String) : Bool :=
+  tested.contains c || c == "id" || c == "mag"
+  || integerColumns.any (fun l => l.1 == finder && l.2.1 == c)
+  || links.any (fun l => l.1 == finder && l.2.1 == c && tested.contains l.2.2.1 && l.2.2.2 == "self." ++ c ++ " / self.kernel.fwhm")
+
+theorem finite_filter_covers_reported_columns :
+    rows.all (fun r => r.2.1.all (columnCovered r.1 r.2.2)) = true := by decide
+
+/-- the only attributes exempted from the finite-value test, and when -/
+theorem finite_filter_exemptions :
+    exemptions.all (fun e => e ∈ [("DAOStarFinder", "self.threshold_eff == 0 and attr == 'flux'"),
+                                  ("DAOStarFinder", "self.threshold_eff <= 0 and attr == 'daofind_mag'")]) = true := by decide
+
+/-- non-vacuity: the three finders are in the table, each with a non-empty filter -/
+theorem finite_filter_table_nonempty :
+    rows.map (·.1) = ["DAOStarFinder", "IRAFStarFinder", "StarFinder"] ∧ rows.all (fun r => !r.2.2.isEmpty) = true := by decide
+
+/-- the pre-F76 table (daofind_mag reported, not tested) does not satisfy the obligation -/
+example : ["id", "flux", "daofind_mag"].all (columnCovered "DAOStarFinder" ["flux"]) = false := by decide
+end finite
 
 end PhotVerif.C14
